@@ -72,7 +72,7 @@ def run(rep, tier, seed):
         elif e["ev"] == "kill":
             rep.case(["kill", e["how"], e["k"], e["uncompressed"], e["pre"]], e["died"])
         elif e["ev"] == "xkill":
-            rep.case(["xkill", e["sys"], e["n"], e["k"], e.get("absent")], not e["survived"])
+            rep.case(["xkill", e["sys"], e["n"], e["k"], e.get("absent"), e.get("longname")], not e["survived"])
         elif e["ev"] == "inplace":
             rep.case(["inplace", e["n"], e["start"], e["k"]], e["killed"])
     rep.extra["records"] = kinds
